@@ -5,7 +5,7 @@
 struct MEntry { uint16_t seq; bool complete; uint64_t last; };
 using Key = std::pair<uint64_t, uint16_t>;   // (mac, generation)
 
-static Key key_of(int k) { return {0x02AA00000000ULL + (uint64_t)(k % 12), (uint16_t)(k / 12 ? 0x0101 : 7)}; }   // 24 keys: 12 macs x 2 generations
+static Key key_of(int k) { static const uint16_t gens[3] = {7, 0, 0x0101}; return {0x02AA00000000ULL + (uint64_t)(k % 8), gens[(k / 8) % 3]}; }   // 24 keys: 8 addresses x 3 generations (one of them 0)
 
 static Verdict run(const Case &c) {
     Verdict v;
@@ -127,7 +127,7 @@ int main(int argc, char **argv) {
     if (!a.replay.empty()) return replay_case(a, run);
     Current::install(a.failing);
     Evidence ev;
-    ev.rule = "operation sequences (length <= 200) of add/find/remove/clear/set-complete+status-update/expiry-tick/clock advance 0..200 s (weights on 0,59,60,61,120) over 24 keys (12 addresses x 2 generations), "
+    ev.rule = "operation sequences (length <= 200) of add/find/remove/clear/set-complete+status-update/expiry-tick/clock advance 0..200 s (weights on 0,59,60,61,120) over 24 keys (8 addresses x generations {7, 0, 0x0101}), "
               "compared after every step with a dictionary model: live entries == count == |model| <= 16, unique keys, fields, is_empty, all_complete, failed add leaves the table bit-identical, expiry removes exactly the sessions idle > 60 s. "
               "non-trivial = sequence that attempted an add on a full table or had an expiry removing some but not all sessions; distinct = digest of the sequence";
     auto gen = rc::gen::exec([] {
